@@ -1207,7 +1207,39 @@ def replay_build(r):
     return r["kind"] in fails, f"failures={sorted(fails)} {info}"
 
 
-HANDLERS = {"models": replay_models, "shave": replay_shave, "prop": replay_prop, "heur": replay_heur, "split": replay_split, "reducer": replay_reducer, "stack": replay_stack, "solve": replay_solve, "varheur": replay_varheur, "lemma": replay_lemma, "build": replay_build}
+def replay_golomb(r):
+    """lifted to the public API: the state the solver found satisfies the search invariant but need not be reached by a search;
+    the counterexample is reported only if the real solver, with the custom consistency algorithm, returns a wrong optimum, a
+    non-ruler, or dies, on some size 4..8 (known optimal lengths)"""
+    import subprocess
+
+    known = {4: 6, 5: 11, 6: 17, 7: 25, 8: 34}
+    code = (
+        "import sys\nfrom nucs.examples.golomb.golomb_problem import GolombProblem, golomb_consistency_algorithm, index\n"
+        "from nucs.solvers.backtrack_solver import BacktrackSolver\nfrom nucs.solvers.consistency_algorithms import register_consistency_algorithm\n"
+        "n=int(sys.argv[1]); sb=bool(int(sys.argv[2]))\np=GolombProblem(n, sb)\na=register_consistency_algorithm(golomb_consistency_algorithm)\n"
+        "s=BacktrackSolver(p, consistency_alg_idx=a, decision_domains=list(range(n-1)), log_level='CRITICAL')\nb=s.minimize(index(n,0,n-1))\n"
+        "m=[0]+[int(b[index(n,0,j)]) for j in range(1,n)]\nd=[m[j]-m[i] for i in range(n) for j in range(i+1,n)]\n"
+        "print('RES', int(b[index(n,0,n-1)]), int(len(set(d))==len(d) and all(int(b[index(n,i,j)])==m[j]-m[i] for i in range(n) for j in range(i+1,n))))\n"
+    )
+    bad = []
+    for n, best in known.items():
+        for sb in (0, 1):
+            try:
+                p = subprocess.run([sys.executable, "-c", code, str(n), str(sb)], capture_output=True, text=True, timeout=600)
+                line = [l for l in p.stdout.splitlines() if l.startswith("RES ")]
+                if not line:
+                    bad.append(f"n={n} sb={sb}: died rc={p.returncode} {p.stderr[-200:]}")
+                else:
+                    _, length, ok = line[-1].split()
+                    if int(length) != best or ok != "1":
+                        bad.append(f"n={n} sb={sb}: length {length} (known optimum {best}), valid ruler={ok}")
+            except subprocess.TimeoutExpired:
+                bad.append(f"n={n} sb={sb}: no result within 600 s")
+    return bool(bad), f"real solver with the custom consistency algorithm: {bad[:3] if bad else 'all optima 4..8 as known'}"
+
+
+HANDLERS = {"models": replay_models, "shave": replay_shave, "prop": replay_prop, "heur": replay_heur, "split": replay_split, "reducer": replay_reducer, "stack": replay_stack, "solve": replay_solve, "varheur": replay_varheur, "lemma": replay_lemma, "build": replay_build, "golomb": replay_golomb}
 
 
 def validate_prop(w):
